@@ -472,6 +472,10 @@ func keyC15(c C15Case) []byte {
 	return k
 }
 
-func TestC15(t *testing.T) {
-	Run(t, Prop[C15Case]{ID: "C15", Gen: genC15, Exhaustive: exhaustiveC15, Check: checkC15, Key: keyC15})
+func propC15() Prop[C15Case] {
+	return Prop[C15Case]{ID: "C15", Gen: genC15, Exhaustive: exhaustiveC15, Check: checkC15, Key: keyC15}
 }
+
+func TestC15(t *testing.T) { Run(t, propC15()) }
+
+func FuzzGenC15(f *testing.F) { RunFuzz(f, propC15()) }
